@@ -25,6 +25,13 @@ Proof.
   intros m content (_ & Hlen & _). unfold spec_files. apply spec_go_lengths. rewrite Hlen. apply N.le_refl.
 Qed.
 
+(* the files written, concatenated in the listed order, are the whole content: nothing lost,
+   duplicated or reordered across file boundaries *)
+Theorem C03_files_concat : forall m content, Geometry m content ->
+  concat (map snd (spec_files m content)) = content.
+Proof. exact spec_files_concat. Qed.
+
+Check C03_files_concat : forall m content, Geometry m content -> concat (map snd (spec_files m content)) = content.
 Check C03_extract : forall ovf m content store, Geometry m content -> StoreOk m content store ->
   extract Extractor_tail_from_start store ovf m = Ok (spec_files m content).
 
@@ -46,3 +53,4 @@ Print Assumptions C03_partition.
 Print Assumptions C03_extract.
 Print Assumptions C03_lengths.
 Print Assumptions C03_pinned_refuted.
+Print Assumptions C03_files_concat.
